@@ -79,7 +79,7 @@ def facts(src):
 # ------------------------------------------------------------------ op sequences
 CATS = ['views', 'routes', 'permissions']
 DISCS = ['d1', 'd2', 'd3']
-FPS = ['x', 'y']
+FPS = ['x', 'x', 'y']      # two distinct objects with EQUAL content per key (as two add_view(permission=p) produce), one different
 
 
 def _pool():
@@ -87,7 +87,9 @@ def _pool():
     for c in CATS:
         for d in DISCS:
             for f in FPS:
-                pool.append([c, d, f, len(pool)])
+                # content is equal between the twins of one key, different between keys (as for real directives:
+                # two distinct entries with EQUAL dict content are conflated by `y not in L` -- see NOTES.md)
+                pool.append([c, d, '%s:%s/%s' % (f, c, d), len(pool)])
     return pool
 
 
@@ -98,9 +100,13 @@ def gen_ops(rng):
     n = rng.choice([2, 3, 4, 6, 8, 12])
     ops = []
     live = []
+    # work on a few keys only, so that re-registration of a key (by the same object, by a twin with equal
+    # content, by an object with different content) and reads of its relations actually meet
+    keys = rng.sample([(c, d) for c in CATS for d in DISCS], rng.choice([2, 2, 3, 4]))
+    pool = [o for o in POOL if (o[0], o[1]) in keys] if rng.random() < 0.8 else POOL
     for _ in range(n):
         r = rng.random()
-        i = rng.choice(POOL)
+        i = rng.choice(pool)
         if r < 0.22 or not live:
             ops.append(['add', i])
             live.append(i)
@@ -108,27 +114,49 @@ def gen_ops(rng):
             k = rng.choice([1, 2, 2, 3])
             rels = []
             for _ in range(k - 1):
-                t = rng.choice(live if rng.random() < 0.8 else POOL)
+                t = rng.choice(live if rng.random() < 0.8 else pool)
                 rels.append([rng.random() < 0.85, t[0], t[1]])
             ops.append(['register', i, rels])
             live.append(i)
         elif r < 0.58:
             k = rng.choice([1, 2, 2, 3])
-            ps = [rng.choice(live if rng.random() < 0.85 else POOL)[:2] for _ in range(k)]
+            ps = [rng.choice(live if rng.random() < 0.85 else pool)[:2] for _ in range(k)]
             ops.append(['relate' if rng.random() < 0.75 else 'unrelate', ps])
         elif r < 0.68:
-            t = rng.choice(live if rng.random() < 0.8 else POOL)
+            t = rng.choice(live if rng.random() < 0.8 else pool)
             ops.append(['remove', t[0], t[1]])
         elif r < 0.82:
-            t = rng.choice(live if rng.random() < 0.85 else POOL)
+            t = rng.choice(live if rng.random() < 0.85 else pool)
             ops.append(['related', t])
         elif r < 0.90:
-            t = rng.choice(POOL)
+            t = rng.choice(pool)
             ops.append(['get', t[0], t[1]])
         elif r < 0.97:
             ops.append(['category', rng.choice(CATS + ['nope'])])
         else:
             ops.append(['categories'])
+    return {'kind': 'ops', 'ops': ops}
+
+
+def gen_relcase(rng):
+    keys = rng.sample([(c, d) for c in CATS for d in DISCS], rng.choice([2, 3, 3, 4]))
+    objs = [o for o in POOL if (o[0], o[1]) in keys and o[2].startswith('x:')]       # the equal-content twins of each key
+    ops, reg = [], []
+    for _ in range(rng.choice([3, 4, 5, 6, 8])):
+        if reg and rng.random() < 0.35:
+            ops.append(['related', rng.choice(objs if rng.random() < 0.2 else [o for o in objs if (o[0], o[1]) in reg])])
+            continue
+        i = rng.choice(objs)
+        rels = []
+        for _ in range(rng.choice([0, 1, 1, 2])):
+            if reg:
+                t = rng.choice(reg)
+                rels.append([True, t[0], t[1]])
+        ops.append(['register', i, rels])
+        if (i[0], i[1]) not in reg:
+            reg.append((i[0], i[1]))
+    for k in reg:
+        ops.append(['related', [o for o in objs if (o[0], o[1]) == k][0]])
     return {'kind': 'ops', 'ops': ops}
 
 
@@ -260,6 +288,11 @@ def _scenarios():
     S['add_request_method'] = ('add_request_method', simple('add_request_method', callable=mk('rm'), name='rmname',
                                                             property=False, reify=V(True, False)))
     S['set_locale_negotiator'] = ('set_locale_negotiator', simple('set_locale_negotiator', negotiator=mk('ln')))
+
+    def add_translation_dirs(variant):
+        spec = 'harness.c20:locale/'
+        return (lambda c: c.add_translation_dirs(spec)), {'specs': spec}
+    S['add_translation_dirs'] = ('register', add_translation_dirs)
     S['add_renderer'] = ('add_renderer', simple('add_renderer', name='.zz', factory=mk('rf')))
     S['add_route'] = ('add_route', simple(
         'add_route', name='rname', pattern='/p/{x}', factory=mk('rfac'), xhr=V(True, False), request_method='POST',
@@ -299,6 +332,20 @@ def _scenarios():
 def tween_factory_x(handler, registry):
     return handler
 
+
+# the category in which each directive's statement must leave an entry
+EXPECT_CATEGORY = {
+    'add_subscriber': 'subscribers', 'add_response_adapter': 'response adapters', 'add_traverser': 'traversers',
+    'add_resource_url_adapter': 'resource url adapters', 'set_root_factory': 'root factories',
+    'set_session_factory': 'session factory', 'set_request_factory': 'request factory',
+    'set_response_factory': 'response factory', 'set_execution_policy': 'execution policy',
+    'add_request_method': 'request extensions', 'set_locale_negotiator': 'locale negotiator',
+    'add_translation_dirs': 'translation directories', 'add_renderer': 'renderer factories', 'add_route': 'routes',
+    'set_security_policy': 'security policy', 'set_default_permission': 'default permission',
+    'add_permission': 'permissions', 'set_default_csrf_options': 'default csrf view options',
+    'set_csrf_storage_policy': 'csrf storage policy', 'add_tween': 'tweens', 'add_view_deriver': 'view derivers',
+    'set_view_mapper': 'view mappers', 'add_accept_view_order': 'accept view order', 'add_view': 'views',
+}
 
 _SC = {}
 
@@ -512,7 +559,7 @@ def generate(rng, tier, n):
         for variant in (0, 1):
             yield {'kind': 'directive', 'name': name, 'variant': variant}
     for j in range(n):
-        yield gen_program(rng) if j % 3 == 0 else gen_ops(rng)
+        yield gen_program(rng) if j % 3 == 0 else gen_relcase(rng) if j % 3 == 1 else gen_ops(rng)
 
 
 def valid(case):
@@ -635,6 +682,9 @@ def spec_holds(case, obs, spec):
         params.update(s['params'])
     _, build = scenarios()[case['name']]
     _, args = build(case['variant'])
+    want = EXPECT_CATEGORY.get(case['name'])
+    if want is not None and not any(cn == want for cn, _, _ in rows):
+        return False            # the statement took effect but left no entry in its documented category
     for cn, k, srcs in rows:
         if k == '@action_info':
             if srcs != ['statement']:
@@ -653,8 +703,48 @@ def spec_holds(case, obs, spec):
 
 
 def _ops_spec(case, obs):
-    """relations read back must be symmetric among currently registered, pairwise content-distinct objects."""
-    return None
+    """Property clause "relations link the right pairs", judged on the sequences it speaks about: only
+    registrations with added relations (as directives make them) and reads; every key is registered by objects
+    of equal content (the same statement re-executed, or two statements emitting the same entry, e.g. the
+    `permissions` entry of two views naming one permission).  Then related(x), as a set of keys, must be exactly
+    the keys linked to key(x) by a relation declared by ANY registration so far, in either direction."""
+    ops = case['ops']
+    if not ops or any(o[0] not in ('register', 'related', 'get', 'category', 'categories') for o in ops):
+        return None
+    content = {}
+    links = set()
+    registered = set()
+    if not isinstance(obs, list) or len(obs) != len(ops):
+        return False
+    for o, r in zip(ops, obs):
+        if o[0] == 'register':
+            key = (o[1][0], o[1][1])
+            if content.setdefault(key, o[1][2]) != o[1][2]:
+                return None                       # different content under one key: an override, not judged here
+            if any(not rel[0] for rel in o[2]):
+                return None
+            for rel in o[2]:
+                if (rel[1], rel[2]) not in registered | {key}:
+                    return None                   # target missing: KeyError territory, correspondence only
+            registered.add(key)
+            for rel in o[2]:
+                t = (rel[1], rel[2])
+                if t != key:
+                    links.add((key, t))
+                    links.add((t, key))
+            if r != []:
+                return False
+        elif o[0] == 'related':
+            key = (o[1][0], o[1][1])
+            if key not in registered:
+                continue
+            if r in (['K'], ['V']):
+                return False
+            got = {(POOL[i][0], POOL[i][1]) for i in r}
+            want = {b for (a, b) in links if a == key}
+            if got != want:
+                return False
+    return True
 
 
 def classify(case, obs, spec):
